@@ -189,7 +189,8 @@ Section Multilevel.
   Variable n : nat -> nat.                    (* mesh(k).numbf *)
   Variable B : nat -> nat -> X -> Qc.         (* tensor-product basis function i of level k *)
   Variable P : nat -> nat -> nat -> Qc.       (* P k j i: tp_prolongation(k, kron=True)[j, i] *)
-  Hypothesis two_scale : forall k i x, (i < n k)%nat ->
+  Variable Lmax : nat.                        (* number of levels - 1: two_scale is available below it *)
+  Hypothesis two_scale : forall k i x, (k < Lmax)%nat -> (i < n k)%nat ->
     B k i x = bigsum (n (S k)) (fun j => P k j i * B (S k) j x).
 
   (* represent_fine, hierarchical.py:1102-1143: walking down from level T, the accumulated matrix
@@ -205,14 +206,14 @@ Section Multilevel.
   Definition noZ : nat -> nat -> bool := fun _ _ => false.
 
   (* HB: every function of level T - m is reproduced on level T by its column *)
-  Lemma RF_hb_preserves T : forall m i x, (m <= T)%nat -> (i < n (T - m))%nat ->
+  Lemma RF_hb_preserves T : (T <= Lmax)%nat -> forall m i x, (m <= T)%nat -> (i < n (T - m))%nat ->
     B (T - m)%nat i x = bigsum (n T) (fun J => RF noZ T m J i * B T J x).
   Proof.
-    induction m as [|m IH]; intros i x Hm Hi.
+    intros HT. induction m as [|m IH]; intros i x Hm Hi.
     - rewrite Nat.sub_0_r in *. cbn [RF]. symmetry. rewrite (bigsum_one _ _ i Hi).
       + rewrite Nat.eqb_refl. ring.
       + intros j Hj N. destruct (Nat.eqb_spec j i); [lia|ring].
-    - rewrite (two_scale _ i x Hi).
+    - rewrite (two_scale (T - S m)%nat i x ltac:(lia) Hi).
       replace (S (T - S m)) with (T - m)%nat by lia.
       rewrite (bigsum_ext _ _ (fun l => bigsum (n T) (fun J => RF noZ T m J l * P (T - S m)%nat l i * B T J x))).
       2:{ intros l Hl. rewrite (IH l x) by lia. rewrite <- bigsum_scale. apply bigsum_ext. intros J _. ring. }
@@ -230,14 +231,15 @@ Section Multilevel.
     bigsum (S T) (fun l => bigsum (n l) (fun i => RF Z T (T - l)%nat J i * u l i)).
 
   Lemma levelwise_eval_eq_fine_l T u x :
+    (T <= Lmax)%nat ->
     levelwise T u x = bigsum (n T) (fun J => fine_coeff noZ T u J * B T J x).
   Proof.
-    unfold levelwise, fine_coeff.
+    intros HTL. unfold levelwise, fine_coeff.
     rewrite (bigsum_ext (n T) _ (fun J => bigsum (S T) (fun l => bigsum (n l) (fun i => RF noZ T (T - l)%nat J i * u l i * B T J x)))).
     2:{ intros J _. rewrite <- bigsum_scale_r. apply bigsum_ext. intros l _. rewrite <- bigsum_scale_r. reflexivity. }
     rewrite bigsum_swap. apply bigsum_ext. intros l Hl.
     rewrite bigsum_swap. apply bigsum_ext. intros i Hi.
-    pose proof (RF_hb_preserves T (T - l) i x ltac:(lia)) as R.
+    pose proof (RF_hb_preserves T HTL (T - l) i x ltac:(lia)) as R.
     replace (T - (T - l))%nat with l in R by lia. rewrite (R Hi).
     rewrite <- bigsum_scale. apply bigsum_ext. intros J _. ring.
   Qed.
@@ -254,13 +256,13 @@ Section Multilevel.
                else u l j.
 
   Lemma represent_fine_thb_two_level_l T actT u x :
-    (1 <= T)%nat ->
+    (1 <= T <= Lmax)%nat ->
     (forall l i, (l < T - 1)%nat -> u l i = 0) ->                (* only the two finest levels carry coefficients *)
     (forall j, actT j = false -> u T j = 0) ->                   (* _reindex: zero outside the active functions *)
     levelwise T (thb_to_hb2 T actT u) x
     = bigsum (n T) (fun J => fine_coeff (fun lv j => Nat.eqb lv T && actT j) T u J * B T J x).
   Proof.
-    intros HT Hlow Hact. rewrite levelwise_eval_eq_fine_l. apply bigsum_ext. intros J HJ. f_equal.
+    intros HT Hlow Hact. rewrite levelwise_eval_eq_fine_l by lia. apply bigsum_ext. intros J HJ. f_equal.
     unfold fine_coeff. destruct T as [|T']; [lia|]. cbn [bigsum].
     replace (S T' - S T')%nat with 0%nat by lia. replace (S T' - T')%nat with 1%nat by lia.
     (* levels below T-1 contribute nothing on either side *)
@@ -348,9 +350,9 @@ Section Multilevel.
   Qed.
 
   Lemma vh_hb_level_l k c x :
-    In c (dofsV k) -> fnHB c x = lsum (dofsV (S k)) (fun r => Phb k r c * fnHB r x).
+    (k < Lmax)%nat -> In c (dofsV k) -> fnHB c x = lsum (dofsV (S k)) (fun r => Phb k r c * fnHB r x).
   Proof.
-    intros Hc. rewrite lsum_dofsV. unfold dofsV in Hc. apply in_app_iff in Hc.
+    intros HkL Hc. rewrite lsum_dofsV. unfold dofsV in Hc. apply in_app_iff in Hc.
     assert (Hcase : (exists l i, (l <= k)%nat /\ In i (act l) /\ c = (l, i)) \/ (exists i, In i (deact k) /\ c = (k, i))).
     { destruct Hc as [Hc|Hc].
       - apply in_flat_map in Hc. destruct Hc as [l [Hl Hc]]. apply in_map_iff in Hc. destruct Hc as [i [E Hi]].
@@ -390,7 +392,7 @@ Section Multilevel.
           cbn [fst snd]. destruct (Nat.eqb_spec l' (S k)); [lia|]. cbn [andb]. ring. }
       unfold fnHB at 1. cbn [fst snd].
       assert (Hik : (i < n k)%nat) by (apply idx_range; apply in_app_iff; right; exact Hi).
-      rewrite (two_scale k i x Hik).
+      rewrite (two_scale k i x HkL Hik).
       rewrite (bigsum_lsum (n (S k)) (act (S k) ++ deact (S k))).
       + rewrite Qcplus_0_l. apply lsum_ext. intros j Hj. unfold Phb. rewrite Hsel. cbn [fst snd].
         rewrite Nat.eqb_refl. cbn [andb]. replace (memb j (act (S k) ++ deact (S k))) with true by (symmetry; apply memb_In; exact Hj).
@@ -415,14 +417,15 @@ Section Multilevel.
     end.
 
   Lemma deact_step l d x :
+    (l < Lmax)%nat ->
     lsum (deact l) (fun s => d s * B l s x)
     = lsum (act (S l)) (fun j => dstep l d j * B (S l) j x)
       + lsum (deact (S l)) (fun j => dstep l d j * B (S l) j x).
   Proof.
-    rewrite <- lsum_app.
+    intros HlL. rewrite <- lsum_app.
     rewrite (lsum_ext (deact l) _ (fun s => lsum (act (S l) ++ deact (S l)) (fun j => P l j s * d s * B (S l) j x))).
     2:{ intros s Hs. assert (Hsn : (s < n l)%nat) by (apply idx_range; apply in_app_iff; right; exact Hs).
-        rewrite (two_scale l s x Hsn).
+        rewrite (two_scale l s x HlL Hsn).
         rewrite (bigsum_lsum (n (S l)) (act (S l) ++ deact (S l))).
         - rewrite <- lsum_scale. apply lsum_ext. intros j _. ring.
         - apply idx_nodup.
@@ -432,11 +435,11 @@ Section Multilevel.
     rewrite lsum_swap. apply lsum_ext. intros j _. unfold dstep. rewrite <- lsum_scale_r. reflexivity.
   Qed.
 
-  Lemma prolongate_expand_l : forall m l d x,
+  Lemma prolongate_expand_l : forall m l d x, (l + m <= Lmax)%nat ->
     lsum (deact l) (fun s => d s * B l s x) = expand m l d x.
   Proof.
-    induction m as [|m IH]; intros l d x; [reflexivity|].
-    cbn [expand]. rewrite deact_step. rewrite (IH (S l)). reflexivity.
+    induction m as [|m IH]; intros l d x Hlm; [reflexivity|].
+    cbn [expand]. rewrite deact_step by lia. rewrite (IH (S l)) by lia. reflexivity.
   Qed.
 
   (* the part of `expand` that lands on active functions: what prolongate_to writes to `out` *)
@@ -458,10 +461,10 @@ Section Multilevel.
      as soon as level l+m has no deactivated functions -- for every m, i.e. without any
      disparity cap *)
   Lemma prolongate_to_replaced_l l i m x :
-    In i (deact l) -> deact (l + m)%nat = [] ->
+    (l + m <= Lmax)%nat -> In i (deact l) -> deact (l + m)%nat = [] ->
     B l i x = expand_act m l (fun s => if Nat.eqb s i then 1 else 0) x.
   Proof.
-    intros Hi Hm. rewrite <- expand_terminates by exact Hm. rewrite <- prolongate_expand_l.
+    intros HL Hi Hm. rewrite <- expand_terminates by exact Hm. rewrite <- prolongate_expand_l by exact HL.
     rewrite (lsum_single (deact l) i).
     - rewrite Nat.eqb_refl. ring.
     - pose proof (idx_nodup l) as H. clear -H. induction (act l) as [|a r IH]; [exact H|]. cbn in H. inversion H; auto.
@@ -531,3 +534,142 @@ Section Labelled.
     rewrite lsum_scale. rewrite (Hinv r W Hr). ring.
   Qed.
 End Labelled.
+
+(* the repaired THB prolongator of virtual level k: change from the THB to the HB basis on level k
+   (T1 = thb_to_hb of virtual level k), the HB prolongator, change back on level k+1 (H2 undoing
+   T2 = thb_to_hb of virtual level k+1); THB functions = HB functions combined with the columns of
+   thb_to_hb *)
+Lemma vh_thb_repaired_l (X : Type) n (B : nat -> nat -> X -> Qc) P Lmax
+  (two_scale : forall k i x, (k < Lmax)%nat -> (i < n k)%nat ->
+     B k i x = bigsum (n (S k)) (fun j => P k j i * B (S k) j x))
+  act deact
+  (idx_nodup : forall k, NoDup (act k ++ deact k))
+  (idx_range : forall k j, In j (act k ++ deact k) -> (j < n k)%nat)
+  (children_closed : forall k i j, In i (deact k) -> (j < n (S k))%nat -> P k j i <> 0 ->
+     In j (act (S k) ++ deact (S k)))
+  k (T1 T2 H2 : dof -> dof -> Qc) :
+  (k < Lmax)%nat ->
+  (forall r (W : dof -> Qc), In r (dofsV act deact (S k)) ->
+      lsum (dofsV act deact (S k)) (fun a => W a * lsum (dofsV act deact (S k)) (fun r' => T2 r r' * H2 r' a)) = W r) ->
+  lpres dof X (dofsV act deact k) (dofsV act deact (S k))
+        (fun c x => lsum (dofsV act deact k) (fun b => T1 b c * fnHB X B b x))
+        (fun c x => lsum (dofsV act deact (S k)) (fun r => T2 r c * fnHB X B r x))
+        (fun r' c => lsum (dofsV act deact (S k))
+                          (fun a => H2 r' a * lsum (dofsV act deact k) (fun b => Phb P act deact k a b * T1 b c))).
+Proof.
+  intros Hk Hinv. apply lpres_change_of_basis; [|exact Hinv].
+  intros c x Hc. eapply vh_hb_level_l; eauto.
+Qed.
+
+(* ------------------------------------------------------------------ *)
+(* packaged hypotheses and statements used by Props.v *)
+Definition two_scale_hyp {X : Type} (n : nat -> nat) (B : nat -> nat -> X -> Qc)
+           (P : nat -> nat -> nat -> Qc) (Lmax : nat) : Prop :=
+  forall k i x, (k < Lmax)%nat -> (i < n k)%nat ->
+    B k i x = bigsum (n (S k)) (fun j => P k j i * B (S k) j x).
+
+Definition index_hyp (n : nat -> nat) (P : nat -> nat -> nat -> Qc) (act deact : nat -> list nat) : Prop :=
+  (forall k, NoDup (act k ++ deact k))
+  /\ (forall k j, In j (act k ++ deact k) -> (j < n k)%nat)
+  /\ (forall k i j, In i (deact k) -> (j < n (S k))%nat -> P k j i <> 0 -> In j (act (S k) ++ deact (S k))).
+
+(* the levels of an HSpace: axes k = the (knot vector, degree) pairs of level k, Ms k = the 1-D
+   prolongations from level k to k+1; if every 1-D prolongation preserves the functions (e.g. by
+   prolongation_preserves), the tensor-product bases satisfy the two-scale relation with the
+   Kronecker products *)
+Lemma tp_two_scale_l (axes : nat -> list axisQ) (Ms : nat -> list (nat -> nat -> Qc)) Lmax :
+  (forall k, (k < Lmax)%nat -> axes_preserve (Ms k) (axes k) (axes (S k))) ->
+  two_scale_hyp (fun k => tp_dofs (axes k)) (fun k i xs => TPN (axes k) i xs)
+                (fun k => kron (Ms k) (axes (S k)) (axes k)) Lmax.
+Proof. intros H k i x Hk Hi. apply tp_preserves_l; auto. Qed.
+
+Lemma axes_preserve_prolongation kv p us Ms rc rf :
+  kv_ok kv p -> Forall (in_dom kv) us -> axes_preserve Ms rc rf ->
+  axes_preserve (get2 (prolongation_spec kv p us) :: Ms) ((kv, p) :: rc) ((refine_kv kv p us, p) :: rf).
+Proof.
+  intros Hok Hd Hr. constructor; [|exact Hr]. intros i x Hi. apply prolongation_preserves_l; assumption.
+Qed.
+
+Lemma represent_fine_hb_l {X} n (B : nat -> nat -> X -> Qc) P Lmax :
+  two_scale_hyp n B P Lmax ->
+  forall T m i x, (T <= Lmax)%nat -> (m <= T)%nat -> (i < n (T - m))%nat ->
+    B (T - m)%nat i x = bigsum (n T) (fun J => RF n P noZ T m J i * B T J x).
+Proof. intros H T m i x HT Hm Hi. eapply RF_hb_preserves; eauto. Qed.
+
+Lemma levelwise_l {X} n (B : nat -> nat -> X -> Qc) P Lmax :
+  two_scale_hyp n B P Lmax ->
+  forall T u x, (T <= Lmax)%nat ->
+    levelwise X n B T u x = bigsum (n T) (fun J => fine_coeff n P noZ T u J * B T J x).
+Proof. intros H T u x HT. eapply levelwise_eval_eq_fine_l; eauto. Qed.
+
+Lemma levelwise_thb2_l {X} n (B : nat -> nat -> X -> Qc) P Lmax :
+  two_scale_hyp n B P Lmax ->
+  forall T actT u x, (1 <= T <= Lmax)%nat ->
+    (forall l i, (l < T - 1)%nat -> u l i = 0) -> (forall j, actT j = false -> u T j = 0) ->
+    levelwise X n B T (thb_to_hb2 n P T actT u) x
+    = bigsum (n T) (fun J => fine_coeff n P (fun lv j => Nat.eqb lv T && actT j) T u J * B T J x).
+Proof. intros H T actT u x HT H1 H2. eapply represent_fine_thb_two_level_l; eauto. Qed.
+
+Lemma vh_hb_l {X} n (B : nat -> nat -> X -> Qc) P Lmax act deact :
+  two_scale_hyp n B P Lmax -> index_hyp n P act deact ->
+  forall k, (k < Lmax)%nat ->
+    lpres dof X (dofsV act deact k) (dofsV act deact (S k)) (fnHB X B) (fnHB X B) (Phb P act deact k).
+Proof. intros H [A [B' C]] k Hk c x Hc. eapply vh_hb_level_l; eauto. Qed.
+
+(* composition of the HB prolongators of the levels k, k+1, ..., k+m-1 *)
+Fixpoint Phb_chain (P : nat -> nat -> nat -> Qc) (act deact : nat -> list nat) (k m : nat) : dof -> dof -> Qc :=
+  match m with
+  | O => fun r c => if dof_eqb r c then 1 else 0
+  | S m' => fun r c => lsum (dofsV act deact (k + m')) (fun s => Phb P act deact (k + m') r s * Phb_chain P act deact k m' s c)
+  end.
+
+Lemma dofsV_nodup_single act deact k (f : dof -> Qc) c :
+  (forall k, NoDup (act k ++ deact k)) -> In c (dofsV act deact k) ->
+  lsum (dofsV act deact k) (fun r => (if dof_eqb r c then 1 else 0) * f r) = f c.
+Proof.
+  intros Hnd Hc. rewrite lsum_dofsV. unfold dofsV in Hc. apply in_app_iff in Hc. destruct c as [l i].
+  assert (D : forall l' a, (if dof_eqb (l', a) (l, i) then 1 else 0) * f (l', a)
+                           = if Nat.eqb l' l && Nat.eqb a i then f (l, i) else 0).
+  { intros l' a. unfold dof_eqb. cbn [fst snd]. destruct (Nat.eqb_spec l' l) as [->|]; destruct (Nat.eqb_spec a i) as [->|]; cbn [andb]; ring. }
+  assert (S1 : forall (L : list nat) l', NoDup L ->
+             lsum L (fun a => (if dof_eqb (l', a) (l, i) then 1 else 0) * f (l', a))
+             = if Nat.eqb l' l && memb i L then f (l, i) else 0).
+  { intros L l' HL. rewrite (lsum_ext L _ (fun a => if Nat.eqb l' l && Nat.eqb a i then f (l, i) else 0)) by (intros; apply D).
+    destruct (Nat.eqb_spec l' l) as [->|]; cbn [andb]; [|apply lsum_zero; reflexivity].
+    destruct (memb i L) eqn:E.
+    - apply memb_In in E. rewrite (lsum_single L i _ HL E).
+      + rewrite Nat.eqb_refl. reflexivity.
+      + intros a _ Na. destruct (Nat.eqb_spec a i); [contradiction|reflexivity].
+    - apply lsum_zero. intros a Ha. destruct (Nat.eqb_spec a i) as [->|]; [|reflexivity].
+      exfalso. apply memb_In in Ha. congruence. }
+  rewrite S1 by apply Hnd.
+  rewrite (lsum_ext (seq 0 k) _ (fun l' => if Nat.eqb l' l && memb i (act l') then f (l, i) else 0)).
+  2:{ intros l' _. apply S1. apply (NoDup_app_l _ _ (Hnd l')). }
+  destruct Hc as [Hc|Hc].
+  - apply in_flat_map in Hc. destruct Hc as [l0 [Hl0 Hc]]. apply in_map_iff in Hc. destruct Hc as [a [E Ha]].
+    inversion E; subst. apply in_seq in Hl0.
+    rewrite (lsum_single (seq 0 k) l _ (seq_NoDup _ _)).
+    + rewrite Nat.eqb_refl. replace (memb i (act l)) with true by (symmetry; apply memb_In; exact Ha). cbn [andb].
+      destruct (Nat.eqb_spec k l); [lia|]. cbn [andb]. ring.
+    + apply in_seq. lia.
+    + intros a' _ Na. destruct (Nat.eqb_spec a' l); [contradiction|reflexivity].
+  - apply in_map_iff in Hc. destruct Hc as [a [E Ha]]. inversion E; subst.
+    rewrite lsum_zero.
+    + rewrite Nat.eqb_refl. replace (memb i (act l ++ deact l)) with true by (symmetry; apply memb_In; exact Ha). cbn [andb]. ring.
+    + intros l' Hl'. apply in_seq in Hl'. destruct (Nat.eqb_spec l' l); [lia|reflexivity].
+Qed.
+
+Lemma vh_hb_chain_l {X} n (B : nat -> nat -> X -> Qc) P Lmax act deact :
+  two_scale_hyp n B P Lmax -> index_hyp n P act deact ->
+  forall m k, (k + m <= Lmax)%nat ->
+    lpres dof X (dofsV act deact k) (dofsV act deact (k + m)) (fnHB X B) (fnHB X B) (Phb_chain P act deact k m).
+Proof.
+  intros H Hi. induction m as [|m IH]; intros k Hk.
+  - rewrite Nat.add_0_r. intros c x Hc. cbn [Phb_chain]. symmetry.
+    apply (dofsV_nodup_single act deact k (fun r => fnHB X B r x) c); [apply Hi|exact Hc].
+  - replace (k + S m)%nat with (S (k + m)) by lia. cbn [Phb_chain].
+    apply (lpres_compose dof X (dofsV act deact k) (dofsV act deact (k + m)) (dofsV act deact (S (k + m)))
+             (fnHB X B) (fnHB X B) (fnHB X B) (Phb_chain P act deact k m) (Phb P act deact (k + m))).
+    + apply IH. lia.
+    + apply (vh_hb_l n B P Lmax act deact H Hi). lia.
+Qed.
